@@ -713,7 +713,9 @@ func (g *DependencyGraph) CalculateDepths() {
 		for _, depKey := range current.Dependents {
 			if dep, exists := g.nodes[depKey]; exists {
 				newDepth := current.Depth + 1
-				if dep.Depth < newDepth {
+				// In an acyclic graph no depth reaches the number of nodes; the bound
+				// keeps the relaxation finite when the graph contains a cycle.
+				if newDepth < len(g.nodes) && dep.Depth < newDepth {
 					dep.Depth = newDepth
 					queue = append(queue, dep)
 				}
